@@ -685,16 +685,16 @@ func (o *orch) doReplay(path string) int {
 // ---------------------------------------------------------------------------
 
 type agg struct {
-	s            StatsOut
-	sw, tx, ntx  map[uint64]struct{}
-	perms        map[uint64]struct{}
-	pairs        map[[2]int32]struct{}
-	psites       map[int32]struct{}
-	siteHits     []uint64
-	samples      []string
-	byKind       map[string]uint64
-	wallByKind   map[string]float64
-	procs        int
+	s           StatsOut
+	sw, tx, ntx map[uint64]struct{}
+	perms       map[uint64]struct{}
+	pairs       map[[2]int32]struct{}
+	psites      map[int32]struct{}
+	siteHits    []uint64
+	samples     []string
+	byKind      map[string]uint64
+	wallByKind  map[string]float64
+	procs       int
 }
 
 func newAgg() *agg {
@@ -850,35 +850,35 @@ func (o *orch) writeEvidence(a *agg, c counts, nviol int) {
 		"simulated_time": map[string]any{"unit": "yields (function entries, loop heads and statements of repository code executed under the simulator)",
 			"total": a.s.Steps, "max_per_run": a.s.MaxSteps},
 		"faults_fired": map[string]any{
-			"F1_preemptions":            a.s.Switches,
-			"F2_map_reorderings":        a.s.MapReord,
-			"F2_map_ranges_served":      a.s.MapServed,
-			"F3_aborted_calls":          a.s.Aborted,
-			"F4_cold_start_processes":   a.s.Cold,
-			"F5_docs_with_spare_cap":    a.s.SpareCapDocs,
-			"F5_results_fed_back":       a.s.Feeds,
-			"F5_caller_mutations":       a.s.Mutates,
-			"F6_forced_gc":              a.s.GCs,
-			"F7_shim_lock_contention":   a.s.Blocks,
-			"static_errors":             a.s.StaticErr,
-			"F7_note":                   "0 means the repository has no sync/time/rand call site for the shims to act on",
+			"F1_preemptions":          a.s.Switches,
+			"F2_map_reorderings":      a.s.MapReord,
+			"F2_map_ranges_served":    a.s.MapServed,
+			"F3_aborted_calls":        a.s.Aborted,
+			"F4_cold_start_processes": a.s.Cold,
+			"F5_docs_with_spare_cap":  a.s.SpareCapDocs,
+			"F5_results_fed_back":     a.s.Feeds,
+			"F5_caller_mutations":     a.s.Mutates,
+			"F6_forced_gc":            a.s.GCs,
+			"F7_shim_lock_contention": a.s.Blocks,
+			"static_errors":           a.s.StaticErr,
+			"F7_note":                 "0 means the repository has no sync/time/rand call site for the shims to act on",
 		},
 		"interleavings": map[string]any{
-			"distinct_switch_sequences":          len(a.sw),
+			"distinct_switch_sequences":           len(a.sw),
 			"distinct_preempted_to_resumed_pairs": len(a.pairs),
-			"preempted_sites":                    len(a.psites),
-			"yield_sites_total":                  yieldSites,
-			"yield_sites_executed":               hit,
-			"schedules":                          a.s.Schedules,
+			"preempted_sites":                     len(a.psites),
+			"yield_sites_total":                   yieldSites,
+			"yield_sites_executed":                hit,
+			"schedules":                           a.s.Schedules,
 		},
 		"map_orders": map[string]any{"distinct_site_permutation_pairs": len(a.perms), "map_range_sites": totalSites - yieldSites},
 		"probes": map[string]uint64{
-			"expression_state_changed": a.s.ExprStateChanged,
-			"result_aliases_input":     a.s.AliasResults,
-			"calls_on_shared_values":   a.s.SharedDocCalls,
+			"expression_state_changed":  a.s.ExprStateChanged,
+			"result_aliases_input":      a.s.AliasResults,
+			"calls_on_shared_values":    a.s.SharedDocCalls,
 			"distinct_expression_texts": uint64(len(a.tx)),
 		},
-		"c15_classes": map[string]uint64{"strict": a.s.Strict, "enumerating": a.s.Enum, "same_order_only": a.s.Unsafe, "multi_fault": a.s.MultiFault, "cross_order_comparisons": a.s.Compared},
+		"c15_classes":    map[string]uint64{"strict": a.s.Strict, "enumerating": a.s.Enum, "same_order_only": a.s.Unsafe, "multi_fault": a.s.MultiFault, "cross_order_comparisons": a.s.Compared},
 		"oracle_process": map[string]int{"re_evaluations": o.oracleChecked, "processes": o.oracleProcesses},
 		"components": map[string]string{
 			"real":      "lexer, parser, evaluator, public API, error mapping (rebuilt from /repo's working tree, same-line seams spliced in), decimal128, encoding/json, sort/slices, reflect",
